@@ -296,14 +296,14 @@ func (a *Activation) binop(st *State, op token.Token, x, y Term, xt, yt types.Ty
 			g.assume(st, not(eq(y, bvConst(bitsOf(y), 0))))
 			if op == token.QUO {
 				if signed {
-					return bvop("bvsdiv", x, y)
+					return g.divConst("bvsdiv", x, y)
 				}
-				return bvop("bvudiv", x, y)
+				return g.divConst("bvudiv", x, y)
 			}
 			if signed {
-				return bvop("bvsrem", x, y)
+				return g.divConst("bvsrem", x, y)
 			}
-			return bvop("bvurem", x, y)
+			return g.divConst("bvurem", x, y)
 		case token.AND:
 			return bvop("bvand", x, y)
 		case token.OR:
